@@ -45,9 +45,9 @@ func init() {
 }
 
 func c14e(c *Ctx) {
-	c.checkLockDiscipline(Protected{pkgWitness, "logState", "mu", []string{"checkpoint", "nextEntry", "mirrorCheckpoint"}}, nil, false)
-	c.checkLockDiscipline(Protected{pkgWitness, "Witness", "logsMu", []string{"meta", "logs"}}, nil, true)
-	c.checkNoReopen(Protected{pkgWitness, "logState", "mu", []string{"checkpoint", "nextEntry", "mirrorCheckpoint"}}, specLockRepl, specLockCrea)
+	c.checkLockDiscipline(Protected{Pkg: pkgWitness, Type: "logState", Mutex: "mu", Fields: []string{"checkpoint", "nextEntry", "mirrorCheckpoint"}}, nil, false)
+	c.checkLockDiscipline(Protected{Pkg: pkgWitness, Type: "Witness", Mutex: "logsMu", Fields: []string{"meta", "logs"}}, nil, true)
+	c.checkNoReopen(Protected{Pkg: pkgWitness, Type: "logState", Mutex: "mu", Fields: []string{"checkpoint", "nextEntry", "mirrorCheckpoint"}}, specLockRepl, specLockCrea)
 }
 
 // guardSuccess checks that okRets are unreachable once safe edges are cut.
